@@ -1,409 +1,18 @@
 // storage: replays behaviours of spec/system/Storage.tla into the real runtime (C22).
 //
 //	storage <behaviours.ndjson> <results.ndjson> [engines=interp,vm]
-//
-// Each behaviour is {"id":n,"steps":[label...]} where a label is the `last` record of the
-// specification and, for steps that end a transaction, carries "com": the committed
-// abstract storage the specification predicts. Every call's observable result is logged by
-// the rendered transaction and compared; after every transaction a projection *script*
-// (fresh Storage, so everything is re-read from the ledger) reads type, value identity,
-// storagePaths and forEachStored for every account and compares with "com".
 package main
 
 import (
 	"encoding/json"
-	"fmt"
 	"os"
 	"runtime"
-	"sort"
 	"strings"
 	"sync/atomic"
 
-	"github.com/onflow/cadence"
-	"github.com/onflow/cadence/common"
-
-	"verifharness/host"
+	. "verifharness/storagedrv"
 	"verifharness/util"
 )
-
-type Val struct {
-	Ty string `json:"ty"`
-	ID int    `json:"id"`
-}
-type Step struct {
-	Op  string                    `json:"op"`
-	A   string                    `json:"a"`
-	P   string                    `json:"p"`
-	B   string                    `json:"b"`
-	Q   string                    `json:"q"`
-	T   string                    `json:"t"`
-	V   *Val                      `json:"v"`
-	Res json.RawMessage           `json:"res"`
-	Com map[string]map[string]Val `json:"com"`
-}
-type Beh struct {
-	ID    int    `json:"id"`
-	Steps []Step `json:"steps"`
-}
-type Fail struct {
-	ID      int    `json:"id"`
-	Engine  string `json:"engine"`
-	Kind    string `json:"kind"`
-	Harness bool   `json:"harness,omitempty"`
-	Step    int    `json:"step"`
-	Msg     string `json:"msg"`
-	Src     string `json:"src,omitempty"`
-	Beh     *Beh   `json:"beh,omitempty"`
-}
-
-const typesContract = `
-access(all) contract T {
-  access(all) struct interface I {}
-  access(all) resource interface RI {}
-  access(all) struct S: I { access(all) let id: Int; init(id: Int) { self.id = id } }
-  access(all) struct S2 { access(all) let id: Int; init(id: Int) { self.id = id } }
-  access(all) resource R: RI { access(all) let id: Int; init(id: Int) { self.id = id } }
-  access(all) resource R2 { access(all) let id: Int; init(id: Int) { self.id = id } }
-  access(all) fun mkR(id: Int): @R { return <- create R(id: id) }
-  access(all) fun mkR2(id: Int): @R2 { return <- create R2(id: id) }
-  access(all) fun join(_ xs: [String]): String { var s = ""; for x in xs { s = s.concat(x).concat(",") }; return s }
-  access(all) fun desc(_ v: AnyStruct): String {
-    if let s = v as? S { return "S:".concat(s.id.toString()) }
-    if let s = v as? S2 { return "S2:".concat(s.id.toString()) }
-    if let s = v as? Int { return "Int:".concat(s.toString()) }
-    return "?"
-  }
-  access(all) fun descR(_ v: &AnyResource): String {
-    if let r = v as? &R { return "R:".concat(r.id.toString()) }
-    if let r = v as? &R2 { return "R2:".concat(r.id.toString()) }
-    return "?"
-  }
-}`
-
-var accts = map[string]common.Address{"A1": host.Addr(2), "A2": host.Addr(3)}
-var acctNames = []string{"A1", "A2"}
-var pathNames = []string{"p1", "p2", "p3"}
-
-func isRes(t string) bool {
-	switch t {
-	case "R", "R2", "RI", "AnyResource":
-		return true
-	}
-	return false
-}
-
-func tyExpr(t string) string {
-	switch t {
-	case "S", "S2", "R", "R2":
-		return "T." + t
-	case "I", "RI":
-		return "{T." + t + "}"
-	}
-	return t
-}
-
-func valExpr(v *Val) string {
-	switch v.Ty {
-	case "S", "S2":
-		return fmt.Sprintf("T.%s(id: %d)", v.Ty, v.ID)
-	case "Int":
-		return fmt.Sprint(v.ID)
-	case "R":
-		return fmt.Sprintf("<- T.mkR(id: %d)", v.ID)
-	case "R2":
-		return fmt.Sprintf("<- T.mkR2(id: %d)", v.ID)
-	}
-	panic("valExpr " + v.Ty)
-}
-
-// descViaBorrow renders an expression that describes the value at (a, path) without relying on
-// failable casts of storage references (they do not look at the stored value).
-func descViaBorrow(a, path string, v *Val) string {
-	switch v.Ty {
-	case "S", "S2", "R", "R2":
-		return fmt.Sprintf("\"%s:\".concat(%s.storage.borrow<&T.%s>(from: %s)!.id.toString())", v.Ty, a, v.Ty, path)
-	case "Int":
-		return fmt.Sprintf("\"Int:\".concat((*%s.storage.borrow<&Int>(from: %s)!).toString())", a, path)
-	}
-	return "\"?\""
-}
-
-func render(steps []Step) string {
-	var sb strings.Builder
-	sb.WriteString("import T from 0x1\ntransaction {\n  prepare(A1: auth(Storage) &Account, A2: auth(Storage) &Account) {\n")
-	for i, s := range steps {
-		path := "/storage/" + s.P
-		switch s.Op {
-		case "save":
-			fmt.Fprintf(&sb, "    %s.storage.save(%s, to: %s); log(\"ok\")\n", s.A, valExpr(s.V), path)
-		case "load":
-			te := tyExpr(s.T)
-			if isRes(s.T) {
-				fmt.Fprintf(&sb, "    if let v%d <- %s.storage.load<@%s>(from: %s) { log(\"some:\".concat(T.descR(&v%d as &AnyResource))); destroy v%d } else { log(\"nil\") }\n", i, s.A, te, path, i, i)
-			} else {
-				fmt.Fprintf(&sb, "    if let v%d = %s.storage.load<%s>(from: %s) { log(\"some:\".concat(T.desc(v%d))) } else { log(\"nil\") }\n", i, s.A, te, path, i)
-			}
-		case "move":
-			te := tyExpr(s.T)
-			dst := "/storage/" + s.Q
-			if isRes(s.T) {
-				fmt.Fprintf(&sb, "    if let v%d <- %s.storage.load<@%s>(from: %s) { let d%d = T.descR(&v%d as &AnyResource); %s.storage.save(<-v%d, to: %s); log(\"some:\".concat(d%d)) } else { log(\"nil\") }\n", i, s.A, te, path, i, i, s.B, i, dst, i)
-			} else {
-				fmt.Fprintf(&sb, "    if let v%d = %s.storage.load<%s>(from: %s) { %s.storage.save(v%d, to: %s); log(\"some:\".concat(T.desc(v%d))) } else { log(\"nil\") }\n", i, s.A, te, path, s.B, i, dst, i)
-			}
-		case "copy":
-			fmt.Fprintf(&sb, "    if let v%d = %s.storage.copy<%s>(from: %s) { log(\"some:\".concat(T.desc(v%d))) } else { log(\"nil\") }\n", i, s.A, tyExpr(s.T), path, i)
-		case "borrow":
-			id := "\"?\""
-			if s.V != nil {
-				id = descViaBorrow(s.A, path, s.V)
-			}
-			fmt.Fprintf(&sb, "    if let v%d = %s.storage.borrow<&%s>(from: %s) { log(\"some:\".concat(%s)) } else { log(\"nil\") }\n", i, s.A, tyExpr(s.T), path, id)
-		case "check":
-			te := tyExpr(s.T)
-			if isRes(s.T) {
-				te = "@" + te
-			}
-			fmt.Fprintf(&sb, "    log(%s.storage.check<%s>(from: %s) ? \"true\" : \"false\")\n", s.A, te, path)
-		case "type":
-			fmt.Fprintf(&sb, "    if let t%d = %s.storage.type(at: %s) { log(t%d.identifier) } else { log(\"none\") }\n", i, s.A, path, i)
-		case "paths":
-			fmt.Fprintf(&sb, "    var ps%d: [String] = []; for p in %s.storage.storagePaths { ps%d.append(p.toString()) }; log(T.join(ps%d))\n", i, s.A, i, i)
-		case "foreach":
-			fmt.Fprintf(&sb, "    var fs%d: [String] = []; %s.storage.forEachStored(fun (path: StoragePath, type: Type): Bool { fs%d.append(path.toString().concat(\"=\").concat(type.identifier)); return true }); log(T.join(fs%d))\n", i, s.A, i, i)
-		case "abort":
-			sb.WriteString("    panic(\"abort\")\n")
-		}
-	}
-	sb.WriteString("  }\n}\n")
-	return sb.String()
-}
-
-func tyID(t string) string {
-	switch t {
-	case "none":
-		return "none"
-	case "Int":
-		return "Int"
-	}
-	return "A.0000000000000001.T." + t
-}
-
-func sortedJoin(xs []string) string {
-	sort.Strings(xs)
-	out := ""
-	for _, x := range xs {
-		out += x + ","
-	}
-	return out
-}
-
-func normalizeSetLog(s string) string {
-	if s == "" {
-		return ""
-	}
-	parts := strings.Split(strings.TrimSuffix(s, ","), ",")
-	return sortedJoin(parts)
-}
-
-// expect returns the log line the specification predicts for a completed step.
-func expect(s Step) (string, bool) {
-	var r string
-	if json.Unmarshal(s.Res, &r) == nil {
-		switch s.Op {
-		case "load", "copy", "borrow", "move":
-			if r == "some" {
-				return fmt.Sprintf("some:%s:%d", s.V.Ty, s.V.ID), false
-			}
-		case "type":
-			return tyID(r), false
-		}
-		return r, false
-	}
-	switch s.Op {
-	case "paths":
-		var set []string
-		json.Unmarshal(s.Res, &set)
-		for i := range set {
-			set[i] = "/storage/" + set[i]
-		}
-		return sortedJoin(set), true
-	case "foreach":
-		var set []struct {
-			P  string `json:"p"`
-			Ty string `json:"ty"`
-		}
-		json.Unmarshal(s.Res, &set)
-		var xs []string
-		for _, e := range set {
-			xs = append(xs, "/storage/"+e.P+"="+tyID(e.Ty))
-		}
-		return sortedJoin(xs), true
-	}
-	return "?", false
-}
-
-func resString(s Step) string {
-	var r string
-	json.Unmarshal(s.Res, &r)
-	return r
-}
-
-func projectionScript() string {
-	var sb strings.Builder
-	sb.WriteString("import T from 0x1\naccess(all) fun main(): [String] { let out: [String] = []\n")
-	for _, a := range acctNames {
-		fmt.Fprintf(&sb, " let %s = getAuthAccount<auth(Storage) &Account>(%s)\n", a, accts[a].HexWithPrefix())
-		for _, p := range pathNames {
-			fmt.Fprintf(&sb, " if let t = %s.storage.type(at: /storage/%s) { out.append(t.identifier) } else { out.append(\"none\") }\n", a, p)
-			fmt.Fprintf(&sb, " if %[1]s.storage.check<@T.R>(from: /storage/%[2]s) { out.append(\"R:\".concat(%[1]s.storage.borrow<&T.R>(from: /storage/%[2]s)!.id.toString())) } else { if %[1]s.storage.check<@T.R2>(from: /storage/%[2]s) { out.append(\"R2:\".concat(%[1]s.storage.borrow<&T.R2>(from: /storage/%[2]s)!.id.toString())) } else { if let s = %[1]s.storage.copy<AnyStruct>(from: /storage/%[2]s) { out.append(T.desc(s)) } else { out.append(\"-\") } } }\n", a, p)
-		}
-		fmt.Fprintf(&sb, " var ps%s = \"\"; for p in %s.storage.storagePaths { ps%s = ps%s.concat(p.toString()).concat(\",\") }; out.append(ps%s)\n", a, a, a, a, a)
-		fmt.Fprintf(&sb, " var fs%s: [String] = []; %s.storage.forEachStored(fun (path: StoragePath, type: Type): Bool { fs%s.append(path.toString().concat(\"=\").concat(type.identifier)); return true }); var fj%s = \"\"; for x in fs%s { fj%s = fj%s.concat(x).concat(\",\") }; out.append(fj%s)\n", a, a, a, a, a, a, a, a)
-	}
-	sb.WriteString(" return out }\n")
-	return sb.String()
-}
-
-var projSrc = projectionScript()
-
-func errKindOK(want, class string) bool {
-	switch want {
-	case "err:overwrite":
-		return class == "user:OverwriteError"
-	case "err:type":
-		return class == "user:ForceCastTypeMismatchError" || class == "user:StoredValueTypeMismatchError" ||
-			class == "user:TypeMismatchError"
-	case "abort":
-		return class == "user:PanicError"
-	}
-	return false
-}
-
-func replay(b *Beh, useVM bool) *Fail {
-	eng := "interp"
-	if useVM {
-		eng = "vm"
-	}
-	w := host.NewWorld()
-	if err := w.Deploy(host.Addr(1), "T", typesContract); err != nil {
-		return &Fail{ID: b.ID, Engine: eng, Kind: "deploy", Harness: true, Msg: err.Error()}
-	}
-	signers := []common.Address{accts["A1"], accts["A2"]}
-	var cur []Step
-	for si, s := range b.Steps {
-		if s.Op == "begin" {
-			cur = nil
-			continue
-		}
-		res := resString(s)
-		endsTx := s.Op == "commit" || s.Op == "abort" || strings.HasPrefix(res, "err:")
-		if s.Op != "commit" {
-			cur = append(cur, s)
-		}
-		if !endsTx {
-			continue
-		}
-		src := render(cur)
-		r := w.Tx(src, signers, useVM)
-		fail := func(kind, msg string) *Fail {
-			return &Fail{ID: b.ID, Engine: eng, Kind: kind, Step: si, Msg: msg, Src: src, Beh: b}
-		}
-		if host.IsInternal(r.Class) {
-			return fail("internal", r.Class+": "+r.Err.Error())
-		}
-		if r.Class == "user:ParsingCheckingError" || r.Class == "user:CheckerError" || strings.Contains(r.Class, "Parsing") {
-			f := fail("render", r.Err.Error())
-			f.Harness = true
-			return f
-		}
-		wantErr := s.Op != "commit"
-		if (r.Err != nil) != wantErr {
-			return fail("outcome", fmt.Sprintf("transaction outcome: model predicts failure=%v, runtime returned %v", wantErr, r.Err))
-		}
-		if wantErr {
-			want := res
-			if s.Op == "abort" {
-				want = "abort"
-			}
-			if !errKindOK(want, r.Class) {
-				return fail("errkind", fmt.Sprintf("model predicts %s, runtime failed with %s: %v", want, r.Class, r.Err))
-			}
-			if len(r.Writes) != 0 {
-				return fail("write-on-failure", fmt.Sprintf("failed transaction wrote %d registers", len(r.Writes)))
-			}
-		}
-		var want []string
-		var isSet []bool
-		for _, c := range cur {
-			cr := resString(c)
-			if c.Op == "abort" || strings.HasPrefix(cr, "err:") {
-				break
-			}
-			e, set := expect(c)
-			want = append(want, e)
-			isSet = append(isSet, set)
-		}
-		got := append([]string(nil), r.Logs...)
-		if len(got) == len(want) {
-			for i := range got {
-				if isSet[i] {
-					got[i] = normalizeSetLog(got[i])
-				}
-			}
-		}
-		if strings.Join(want, "|") != strings.Join(got, "|") {
-			return fail("result", fmt.Sprintf("per-call results: model=%v runtime=%v", want, got))
-		}
-		// projection in a fresh script
-		if s.Com == nil {
-			f := fail("nocom", "behaviour step ending a transaction carries no predicted committed state")
-			f.Harness = true
-			return f
-		}
-		pr := w.Script(projSrc, useVM)
-		if pr.Err != nil {
-			if host.IsInternal(pr.Class) {
-				return fail("internal", "projection: "+pr.Class+": "+pr.Err.Error())
-			}
-			return fail("projection", "projection script failed: "+pr.Err.Error())
-		}
-		if len(pr.Writes) != 0 {
-			return fail("script-write", fmt.Sprintf("script wrote %d registers", len(pr.Writes)))
-		}
-		arr := pr.Value.(cadence.Array)
-		k := 0
-		str := func() string { v := string(arr.Values[k].(cadence.String)); k++; return v }
-		for _, a := range acctNames {
-			var occ, fe []string
-			for _, p := range pathNames {
-				gotTy, gotDesc := str(), str()
-				mv, ok := s.Com[a][p]
-				if !ok {
-					mv = Val{Ty: "none"}
-				}
-				wantTy := tyID(mv.Ty)
-				wantDesc := "-"
-				if mv.Ty != "none" {
-					wantDesc = fmt.Sprintf("%s:%d", mv.Ty, mv.ID)
-					occ = append(occ, "/storage/"+p)
-					fe = append(fe, "/storage/"+p+"="+wantTy)
-				}
-				if gotTy != wantTy || gotDesc != wantDesc {
-					return fail("state", fmt.Sprintf("committed storage %s/%s: model=(%s,%s) runtime=(%s,%s)", a, p, wantTy, wantDesc, gotTy, gotDesc))
-				}
-			}
-			gp, gf := normalizeSetLog(str()), normalizeSetLog(str())
-			if gp != sortedJoin(occ) {
-				return fail("state-paths", fmt.Sprintf("storagePaths of %s: model=%s runtime=%s", a, sortedJoin(occ), gp))
-			}
-			if gf != sortedJoin(fe) {
-				return fail("state-foreach", fmt.Sprintf("forEachStored of %s: model=%s runtime=%s", a, sortedJoin(fe), gf))
-			}
-		}
-	}
-	return nil
-}
 
 func main() {
 	if len(os.Args) < 3 {
@@ -434,7 +43,7 @@ func main() {
 	util.Parallel(len(behs), runtime.NumCPU(), func(i int) {
 		b := behs[i]
 		for _, vm := range engines {
-			if f := replay(b, vm); f != nil {
+			if f := Replay(b, vm); f != nil {
 				atomic.AddInt64(&nfail, 1)
 				out.Write(f)
 			}
